@@ -148,7 +148,7 @@ class CacheProp(SeqProp):
                 elif o == "setdefault":
                     ops.append(f"setdefault {k} {rng.choice([0, 5 + vcount])}")
                 elif o == "update":
-                    m = rng.randint(0, 3)
+                    m = rng.choice([0, 1, 2, 3, 3, 5])
                     ops.append("update" + "".join(f" {rng.randrange(nkeys)} {rng.choice([0, vcount * 10 + j])}" for j in range(m)))
                 elif o == "eq":
                     # often an equal dict: filled in at run time is impossible (ops are fixed), so random small dicts
@@ -374,7 +374,12 @@ class CacheProp(SeqProp):
             c.clear(); return "ok"
         if o == "update":
             a = [int(x) for x in w[1:]]
-            c.update([(K(k), V(v, k)) for k, v in zip(a[0::2], a[1::2])]); return "ok"
+            pairs = [(K(k), V(v, k)) for k, v in zip(a[0::2], a[1::2])]
+            if len({k for k in a[0::2]}) == len(pairs) and len(pairs) % 2:
+                c.update(dict(pairs))  # a Mapping (possibly with more items than the cache holds) instead of pairs
+            else:
+                c.update(pairs)
+            return "ok"
         if o == "setdefault":
             return f"ret {enc_val(c.setdefault(K(int(w[1])), V(int(w[2]), int(w[1]))))}"
         if o == "eq":
